@@ -138,6 +138,99 @@ func throughUnmarshal(body []byte, tie bool) {
 	}
 }
 
+// ---- `,string` fields against encoding/json (double-mode unquote = unquote twice) ----
+
+// outer encodings of a literal: sonic's canonical escape, and a valid alternative spelling
+func outerCanonical(lit []byte) []byte { return refQuoteBody(lit, false) }
+func outerAlt(lit []byte) []byte {
+	var o []byte
+	for _, c := range lit {
+		switch c {
+		case '"':
+			o = append(o, `\u0022`...)
+		case 0x5c:
+			o = append(o, `\u005c`...)
+		case '/':
+			o = append(o, `\/`...)
+		default:
+			o = append(o, refEsc1(c)...)
+		}
+	}
+	return o
+}
+
+func hasSurrogateEscape(u []byte) bool {
+	for i := 0; i+5 < len(u); i++ {
+		if u[i] == 0x5c && u[i+1] == 'u' && (u[i+2] == 'd' || u[i+2] == 'D') && hexv(u[i+3]) >= 8 {
+			return true
+		}
+	}
+	return false
+}
+
+// inner: body of the inner literal (encoding/json must accept "inner")
+func throughDouble(inner []byte) {
+	lit := append(append([]byte{'"'}, inner...), '"')
+	for vi, enc := range [][]byte{outerCanonical(lit), outerAlt(lit)} {
+		doc := append(append([]byte(`{"S":"`), enc...), `"}`...)
+		var a, b strTag
+		e1 := json.Unmarshal(doc, &a)
+		if e1 != nil {
+			continue // not in encoding/json's language
+		}
+		current.Store("double " + hx(doc))
+		e2 := sonic.Unmarshal(doc, &b)
+		current.Store("")
+		S.count("sonic.Unmarshal(,string) vs std", doc)
+		if e2 != nil || a.S != b.S {
+			class := "other"
+			switch {
+			case vi == 1 && (bytes.Contains(enc, []byte(`\u0022`)) || bytes.Contains(enc, []byte(`\u005c`)) || bytes.Contains(enc, []byte(`\/`))):
+				class = "outer-noncanonical-escape"
+			case vi == 0 && hasSurrogateEscape(inner):
+				class = "inner-surrogate-escape"
+			case vi == 0 && bytes.Contains(inner, []byte(`\/`)):
+				class = "inner-escaped-slash"
+			}
+			S.fail("through-double-vs-std", "inner", hx(inner), "doc", hx(doc), "std", hx([]byte(a.S)), "sonic", hx([]byte(b.S)),
+				"err", fmt.Sprint(e2), "backend", *label, "class", class, "variant", itoa(vi))
+		}
+	}
+}
+
+func genDouble(r *rng.R, thorough bool) {
+	idx := make([]byte, len(tokens))
+	for k := range idx {
+		idx[k] = byte(k)
+	}
+	maxTok := 3
+	if thorough {
+		maxTok = 4
+	}
+	enumerate(idx, maxTok, func(b []byte) {
+		var sb []byte
+		for _, k := range b {
+			sb = append(sb, tokens[k]...)
+		}
+		if utf8.Valid(sb) {
+			throughDouble(sb)
+		}
+	})
+	for _, sp := range specials {
+		if !utf8.ValidString(sp.seq) {
+			continue
+		}
+		for L := 0; L <= 70; L++ {
+			if len(sp.seq) > L {
+				continue
+			}
+			src := bytes.Repeat([]byte{'a'}, L)
+			copy(src[r.Intn(L-len(sp.seq)+1):], sp.seq)
+			throughDouble(src)
+		}
+	}
+}
+
 func noRawQuote(b []byte) bool {
 	esc := false
 	for _, c := range b {
@@ -225,4 +318,5 @@ func genThrough(r *rng.R, thorough bool) {
 		}
 	}
 	_ = strings.Repeat
+	genDouble(r, thorough)
 }
